@@ -362,6 +362,8 @@ def run(chk, repo, tier):
     _own_storage_rule(chk, repo, 'C04-p')
     from .prop_flow import skip_rule as _skip_rule
     _skip_rule(chk, repo, 'C04-p')
+    from .prop_flow import per_field_shift_rule as _pfs_rule
+    _pfs_rule(chk, repo, 'C04-p')
     chk.clause('C04-f', 'fit_tilt removes tip and tilt (not piston) and records exactly those coefficients', 4)
     chk.clause('C04-g', 'reader/writer slot agreement of Plane.tilt', 1)
     chk.clause('C04-h', 'first-order dispersion is inverted exactly; displacement lies on the trace; signed arc length', 4)
